@@ -195,6 +195,9 @@ func (c *Ctx) c03Reset(pfx string, m *smtpModel, t *smtpTS) {
 	clearsField := func(f string) eng.Pred {
 		return func(in ssa.Instruction) bool {
 			st, ok := in.(*ssa.Store)
+			if ok && m.zeroesEnvelope(st) {
+				return true // the whole envelope record replaced by its zero value
+			}
 			if !ok || !eng.IsNilConst(st.Val) {
 				return false
 			}
